@@ -761,6 +761,20 @@ Check C07_statement_seven_classes : forall dbg hp ho hd shp shs, host_fns_ok hp 
           exists u' su', model_set dbg hp ho hd s u v = Some u' /\ spec_step shp s su v = Some su' /\ R u' su').
 Print Assumptions C07_statement_seven_classes.
 
+(* the 35 start URLs of the small scope and of the protocol table (http, https, ws, ftp, file, non-special,
+   opaque path, empty host, credentials, port, "/." marker), parsed with the safe host functions below, are
+   related by corrS to their Standard's parse (by computation): for them the ten API strings agree after
+   every prefix of every history of the seven setters, whatever the values - special and file URLs included *)
+Theorem C07_seven_small_starts : forall st ops, In st (small_starts ++ proto_starts) -> seven_ops ops ->
+  forall u, safe_parse st = Some u -> outside_known true safe_hp safe_ho toy_hd u ops ->
+  exists su, safe_sparse st = Some su
+    /\ forall n, exists u' su',
+         model_run true safe_hp safe_ho toy_hd u (firstn n ops) = Some u'
+         /\ spec_run safe_shp su (firstn n ops) = Some su'
+         /\ model_api true u' = Some (spec_api_list toy_shs su').
+Proof. exact seven_from_small_starts. Qed.
+Print Assumptions C07_seven_small_starts.
+
 (* the hypothesis on the host functions can be met: every non-empty text that starts with neither ':' nor
    '@' is a domain / an opaque host that serialises as itself *)
 Theorem C07_host_fns_ok_inhabited : host_fns_ok safe_hp safe_ho toy_hd safe_shp toy_shs.
